@@ -22,6 +22,7 @@ def dispatch (cmd : String) (j : Json) : Except String Json :=
   | "store" => cmdStore j
   | "encode" => cmdEncode j
   | "decode" => cmdDecode j
+  | "json_read" => cmdJsonRead j
   | "z_wrap" => cmdZWrap j
   | "csv_dump" => cmdCsvDump j
   | "csv_parse" => cmdCsvParse j
